@@ -19,11 +19,11 @@ func C02(c *vlib.Ctx) {
 	c.Assume("retention prune and release of expired leases are treated as legal background transitions at every step")
 	if os.Getenv("VERIF_PART") == "concurrent" {
 		// thorough tier, second pass under the race detector
-		c02Concurrent(c, 120)
+		c02Concurrent(c, 40)
 		c.CollectRaces()
 		return
 	}
-	c02Concurrent(c, c.N(6, 40))
+	c02Concurrent(c, c.N(6, 24))
 	for _, d := range storecheck.DirectedScenarios() {
 		for _, be := range []string{"memory", "sqlite"} {
 			if d.MemoryOnly && be != "memory" {
@@ -49,7 +49,7 @@ func C02(c *vlib.Ctx) {
 				Label: fmt.Sprintf("C02/long/%s/seq%d", be, s), Props: map[string]bool{"C02": true}})
 		}
 	}
-	seqs := c.N(18, 300)
+	seqs := c.N(18, 120)
 	cfgs := storecheck.ConfigMatrix()
 	for _, be := range []string{"memory", "sqlite"} {
 		for ci, sc := range cfgs {
